@@ -227,7 +227,16 @@ func World(prop string) simrun.World {
 	return func(r *simrun.Run) {
 		switch prop {
 		case "C13":
-			runC13(r)
+			// One run in four uses the concurrent callers of the C14 world
+			// instead of the sequential driver: listings then overlap
+			// with renames and removals (lock back-off and re-seek inside
+			// VirtualReadDir), and each listing call is checked for going
+			// backwards.
+			if r.T.Bool(1, 4) {
+				runC14(r)
+			} else {
+				runC13(r)
+			}
 		case "C14":
 			runC14(r)
 		default:
